@@ -27,7 +27,7 @@ theorem roundtrip (rd : Readers) (v : TV) : canonical rd v = true → fromDto rd
       ∀ acc : List (List Char × TV), (∀ e ∈ es, acc.any (fun a => a.1 == e.1) = false) →
         fromComps rd (toDtoComps es) acc = some (acc ++ es))
     (motive_4 := fun e => canonical rd e.2 = true → fromDto rd (toDto e.2) = some e.2)
-    ?null ?str ?bool ?scalar ?list ?ctx ?nil ?cons ?enil ?econs ?pair v
+    ?null ?str ?bool ?scalar ?list ?ctx ?other ?nil ?cons ?enil ?econs ?pair v
   case null => intro _; simp [toDto, fromDto, readSimple]
   case str => intro s _; simp [toDto, fromDto, readSimple]
   case bool => intro b _; cases b <;> simp [toDto, fromDto, readSimple, tTrue, tFalse]
@@ -41,6 +41,7 @@ theorem roundtrip (rd : Readers) (v : TV) : canonical rd v = true → fromDto rd
     simp only [canonical] at h
     have := ih h [] (by intro e _; rfl)
     simp [toDto, fromDto, this]
+  case other => intro d h; simp [canonical] at h
   case nil => intro _; simp [toDtoList, fromList]
   case cons =>
     intro x xs ihx ihxs h
